@@ -22,16 +22,20 @@ Inductive case :=
 (* one document read as definition `entry` of the `fam` files.
    js_*  : verdict of the reference validator (python jsonschema, draft 2020-12) on the PUBLISHED files
    pyd_* : verdict of the pydantic models configured strict / lax (generate_schema.py's configs) / as imported
-   one_way : the mutation belongs to a named class on which pydantic is more lenient than its own schema *)
-| CDoc (fam : family) (entry : string) (doc : json) (one_way : bool)
+   one_way : the mutation belongs to a named class on which pydantic is more lenient than its own schema
+   with_generated : also evaluate the freshly generated constants (theorems C17_*_same_documents say the verdicts
+   are equal for every document; evaluating it on the unmutated documents keeps a concrete check alive when a
+   published file and the models drift apart and those theorems no longer build) *)
+| CDoc (fam : family) (entry : string) (doc : json) (one_way with_generated : bool)
        (js_strict js_lax pyd_strict pyd_lax pyd_default : bool).
 
+Definition kv (k : string) (v : json) : string * json := (k, v).
 Definition fuel := default_fuel.
 
 (* model validator on the published constants == reference validator on the published files *)
 Definition corr (c : case) : bool :=
   match c with
-  | CDoc f e d _ js_s js_l _ _ _ =>
+  | CDoc f e d _ _ js_s js_l _ _ _ =>
       Bool.eqb (accepts fuel (published f true) e d) js_s &&
       Bool.eqb (accepts fuel (published f false) e d) js_l
   end.
@@ -40,10 +44,11 @@ Definition corr (c : case) : bool :=
    and the schema the models define now gives the same verdict as the published one *)
 Definition mon (c : case) : bool :=
   match c with
-  | CDoc f e d one_way _ _ p_s p_l p_d =>
+  | CDoc f e d one_way with_gen _ _ p_s p_l p_d =>
       let s_s := accepts fuel (published f true) e d in
       let s_l := accepts fuel (published f false) e d in
       verdicts_agree one_way s_s p_s && verdicts_agree one_way s_l p_l && verdicts_agree one_way s_l p_d &&
-      Bool.eqb s_s (accepts fuel (generated f true) e d) &&
-      Bool.eqb s_l (accepts fuel (generated f false) e d)
+      (if with_gen then Bool.eqb s_s (accepts fuel (generated f true) e d) &&
+                        Bool.eqb s_l (accepts fuel (generated f false) e d)
+       else true)
   end.
